@@ -17,7 +17,24 @@ def m_classic_recursive_macro(v, params):
         and m is not None and re.search(r"\(defmacro " + re.escape(m.group(1)) + r" .*\(" + re.escape(m.group(1)) + r"[ )]", t) is not None
 
 
-MATCHERS = {"classic_recursive_macro": m_classic_recursive_macro}
+def m_usecheck_constant_recursion(v, params):
+    # the unused-argument check evaluates a call whose arguments are constants by unfolding the function; when the function
+    # calls itself with constants that never reach its base case, e.g. (defun G (Q R) (if Q (G (- 1) ..) ..)) (a token
+    # deleted from (- Q 1)), every level is evaluated twice and the depth limit of 200 levels is never reached in practice
+    if not (v["kind"] == "entry-point-timeout" and v["entry"] == "usecheck"):
+        return False
+    t = " ".join(v.get("text", "").split())
+    t = re.sub(r"\( ", "(", re.sub(r" \)", ")", t))
+    for m in re.finditer(r"\(defun(?:-inline)? (\w+) ", t):
+        name = m.group(1)
+        body = t[m.end():]
+        # a call of the function to itself whose first argument is a closed form: (G (- 1) ..), (G 5 ..), (G (+ 1 2) ..)
+        if re.search(r"\(" + re.escape(name) + r" (?:-?\d+|\((?:[-+*]|logand|logior|lognot|not) (?:-?\d+ ?)+\))[ )]", body):
+            return True
+    return False
+
+
+MATCHERS = {"classic_recursive_macro": m_classic_recursive_macro, "usecheck_constant_recursion": m_usecheck_constant_recursion}
 
 
 def _drive(acc, n):
